@@ -2,7 +2,7 @@
 
 import math
 
-from .. import core, curves_corpus, oracle_curves
+from .. import core, curves_common, curves_corpus, data, oracle_curves
 
 PROPERTY = 'C05'
 LEVEL = 'exploration'
@@ -18,13 +18,16 @@ RULE = (
     'recession_interval(_zeta) and on the views average_recession_time / average_rising_depth (recomputed as '
     'mean(offset + crossing) from the base tables); a third of the datasets continue as a multi-step session (grid step '
     'changed, rise / recession run again): whether the repeated commands are refused or accepted, the tables must '
-    'still satisfy the walker.  Non-trivial: >= 3 intervals and >= 1 level crossed by >= 3 of '
+    'still satisfy the walker.  Change of units: the same record with rain in units of 2^-30 mm or 2^12 mm (storm '
+    'threshold with it) and with levels in units of 2^-4 mm or 2^6 mm (jump threshold and grid step with it) -- '
+    'multiplication by a power of two is exact, so the stored offsets and crossing values must be the base ones in '
+    'the other unit (1e-9 of the largest value in the table), with the same intervals and levels.  Non-trivial: >= 3 intervals and >= 1 level crossed by >= 3 of '
     'them; distinct by overlap-graph signature / dataset digest.'
 )
 ASSUMPTIONS = [
     'overlap graphs handed to find_offsets are connected (as get_series_time_offsets guarantees); uniqueness is asserted only when rank = n-1',
 ]
-SIZES = {'quick': dict(hm=1600, gi=400, ds=120, cli=12), 'thorough': dict(hm=24000, gi=6000, ds=2400, cli=160, field=True)}
+SIZES = {'quick': dict(hm=1600, gi=400, ds=120, cli=12, units=16), 'thorough': dict(hm=24000, gi=6000, ds=2400, cli=160, field=True, units=320)}
 REQUIRED = {
     tier: {
         'find_offsets-calls-checked': 200,
@@ -39,6 +42,10 @@ REQUIRED = {
         'rise:least-squares-optimality-checked': 20,
         'recession:view-levels-checked': 100,
         'sessions-with-repeated-steps': 5,
+        'get_series_time_offsets-calls-with-debug-messages-on': 10,
+        'curves-assembled-with-debug-messages-on': 5,
+        'units:rise-tables-compared-in-other-units': 8,
+        'units:recession-tables-compared-in-other-units': 8,
     }
     for tier in ('quick', 'thorough')
 }
@@ -203,7 +210,13 @@ def check_series_offsets(ctx, rng, step, series):
     rec.case()
     case = {'kind': 'intervals', 'step': step, 'series': [[list(map(float, t)), list(map(float, H))] for t, H in series]}
     try:
-        ind, off, mp = fo.get_series_time_offsets([(t.copy(), H.copy()) for t, H in series], step)
+        if rng.random() < 0.25:
+            # the caller has logging configured at DEBUG
+            rec.hit('get_series_time_offsets-calls-with-debug-messages-on')
+            with data.library_logging('DEBUG'):
+                ind, off, mp = fo.get_series_time_offsets([(t.copy(), H.copy()) for t, H in series], step)
+        else:
+            ind, off, mp = fo.get_series_time_offsets([(t.copy(), H.copy()) for t, H in series], step)
     except Exception as exc:  # pylint: disable=broad-except
         desc = core.describe_exception(exc)
         if desc['origin'] == 'harness':
@@ -229,6 +242,80 @@ def nontrivial(kind, stats):
     return bool(stats.get('c05-nontrivial'))
 
 
+CURVE_TABLES = {
+    'rise': [('rising_interval', 'SELECT start_epoch, rain_depth_offset_mm FROM rising_interval ORDER BY 1'),
+             ('rising_interval_zeta', 'SELECT start_epoch, zeta_number, mean_crossing_depth_mm FROM rising_interval_zeta ORDER BY 1, 2')],
+    'recession': [('recession_interval', 'SELECT start_epoch, time_offset_s FROM recession_interval ORDER BY 1'),
+                  ('recession_interval_zeta', 'SELECT start_epoch, zeta_number, mean_crossing_time FROM recession_interval_zeta ORDER BY 1, 2')],
+}
+
+
+def curve_tables(ctx, case):
+    """{kind: {table: rows}} of the curves that assemble on this record (function route)"""
+    connection, _, exc = curves_common.build_dataset(ctx, case, 'function')
+    if exc is not None:
+        if connection is not None:
+            connection.close()
+        return None, core.describe_exception(exc)
+    out = {}
+    try:
+        for kind in ('rise', 'recession'):
+            exc = curves_common.run_curve(connection, kind)
+            if exc is not None:
+                out[kind] = ('raised', curves_common.classify_outcome(exc)[0])
+                continue
+            out[kind] = ('ok', {name: connection.execute(sql).fetchall() for name, sql in CURVE_TABLES[kind]})
+    finally:
+        connection.close()
+    return out, None
+
+
+def check_units(ctx, rng, case, index):
+    rec = ctx.rec
+    rec.case()
+    base, err = curve_tables(ctx, case)
+    if base is None:
+        rec.hit('units:base-dataset-not-built')
+        return
+    f = [2.0 ** -30, 2.0 ** 12][index % 2]
+    g = [2.0 ** -4, 2.0 ** 6][(index // 2) % 2]
+    variants = [
+        ('rain-unit', dict(case, rain=[r * f for r in case['rain']], sthr=case['sthr'] * f), {'rise': f, 'recession': 1.0}),
+        ('level-unit', dict(case, z=[[t, v * g] for t, v in case['z']], jthr=case['jthr'] * g,
+                            grid_step=case.get('grid_step', 1.0) * g), {'rise': 1.0, 'recession': 1.0}),
+    ]
+    witness_case = {'kind': 'units', 'base': case, 'index': index}
+    for name, twin, factor in variants:
+        got, err = curve_tables(ctx, twin)
+        if got is None:
+            rec.violation('units:record-in-other-units-cannot-be-processed', {'variant': name, 'exception': err}, witness_case, 'units')
+            continue
+        for kind in ('rise', 'recession'):
+            if base[kind][0] != 'ok':
+                if got[kind][0] == 'ok':
+                    rec.hit('units:curve-assembles-only-in-the-other-unit (base refused: {})'.format(base[kind][1]))
+                continue
+            if got[kind][0] != 'ok':
+                rec.violation('units:{}-curve-assembles-only-in-one-unit'.format(kind), {'variant': name, 'outcome': got[kind][1]}, witness_case, 'units')
+                continue
+            rec.hit('units:{}-tables-compared-in-other-units'.format(kind))
+            for table, _ in CURVE_TABLES[kind]:
+                a, b = base[kind][1][table], got[kind][1][table]
+                if [r[:-1] for r in a] != [r[:-1] for r in b]:
+                    rec.violation('units:{}-has-other-intervals-or-levels-in-other-units'.format(table),
+                                  {'variant': name, 'base_rows': len(a), 'rows': len(b)}, witness_case, 'units')
+                    break
+                scale = max([abs(r[-1]) for r in a] + [0.0])
+                worst = max([abs(ra[-1] - rb[-1] / factor[kind]) for ra, rb in zip(a, b)] + [0.0])
+                if worst > 1e-9 * scale:
+                    rec.violation('units:{}-values-are-not-the-base-values-in-the-other-unit'.format(table),
+                                  {'variant': name, 'factor': factor[kind], 'largest_value': scale, 'largest_difference': worst,
+                                   'relative': worst / scale if scale else None}, witness_case, 'units')
+                    break
+        if base['rise'][0] == 'ok' and len(base['rise'][1]['rising_interval']) >= 3:
+            rec.mark_nontrivial(core.digest(('units', name, case['rain'], case['z'])))
+
+
 def run(ctx):
     import numpy as np
 
@@ -247,6 +334,9 @@ def run(ctx):
     for i in range(n):
         case = curves_corpus.make_case(rng, i)
         curves_corpus.run_dataset(ctx, PROPERTY, case, 'cli' if i < ncli else 'function', i, nontrivial=nontrivial, session=(i % 3 == 0))
+    rng = ctx.rng('units')
+    for i in range(ctx.share(s['units'])):
+        check_units(ctx, rng, curves_corpus.make_case(rng, i), i)
     if s.get('field'):
         run_field(ctx)
 
@@ -289,6 +379,8 @@ def replay(ctx, case, module=None):
     if case.get('kind') == 'head_mapping':
         hm = {int(k): [(s, t) for s, t in v] for k, v in case['head_mapping'].items()}
         check_find_offsets(ctx, rng, hm, 'replay', len({s for v in hm.values() for s, _ in v}))
+    elif case.get('kind') == 'units':
+        check_units(ctx, rng, case['base'], case['index'])
     elif case.get('kind') == 'intervals':
         check_series_offsets(ctx, rng, case['step'], [(np.array(t), np.array(H)) for t, H in case['series']])
     elif case.get('kind') == 'field':
